@@ -2167,12 +2167,13 @@ def emit(A, out_path, sidecar_path=None):
         L.append("Definition fn_%s : positive := %d. (* %s *)" % (nm, nid, qual))
     L.append("")
     text = "\n".join(L) + "\n"
-    os.makedirs(os.path.dirname(out_path), exist_ok=True)
-    old = open(out_path).read() if os.path.exists(out_path) else None
-    if old != text:
-        tmp = out_path + ".tmp%d" % os.getpid()
-        open(tmp, "w").write(text)
-        os.replace(tmp, out_path)
+    if out_path is not None:
+        os.makedirs(os.path.dirname(out_path), exist_ok=True)
+        old = open(out_path).read() if os.path.exists(out_path) else None
+        if old != text:
+            tmp = out_path + ".tmp%d" % os.getpid()
+            open(tmp, "w").write(text)
+            os.replace(tmp, out_path)
     if sidecar_path:
         side = dict(
             nodes=[[k, n] for (k, n) in A.nodes],
@@ -2257,6 +2258,20 @@ BLIND_SPOTS = [
     "fixed value)",
     "element types of sets are unknown: every ordered consumption of a set is flagged",
 ]
+
+
+def facts_for(repo):
+    """the sidecar facts of `repo`, computed in this process without touching coq/gen/EffFacts.v or the shared
+    sidecar file (checks against different trees may run concurrently)"""
+    import tempfile
+    A = analyze(repo)
+    fd, path = tempfile.mkstemp(prefix="c11facts_", suffix=".json")
+    os.close(fd)
+    try:
+        emit(A, None, path)
+        return json.load(open(path))
+    finally:
+        os.remove(path)
 
 
 def out_paths():
